@@ -23,7 +23,7 @@ ASSUMPTIONS = ["IndexedSymbol(<SymPy symbol>) deliberately reuses the given name
                "Symbolic wrappers (Average, FiniteDifference, differentials) are observed and reported separately"]
 N = {"quick": dict(histories=208, steps=50), "thorough": dict(histories=3008, steps=400)}
 MIN_REACH = {"quick": {"objects_created": 8000, "clones_checked": 1500, "ids_traced": 8000, "noninterference": 300, "printed": 450,
-                       "name_collisions": 2000, "catalogue_ids": 900, "digit_boundary_crossed": 100},
+                       "name_collisions": 2000, "catalogue_ids": 900, "digit_boundary_crossed": 100, "printed_single": 3000},
              "thorough": {"objects_created": 500000, "clones_checked": 100000}}
 SHARD_TIMEOUT = {"quick": 900, "thorough": 3300}
 INTERNAL = re.compile(r"\b(SYM|FUN|QTY|SYS|VEC)\d+\b")
@@ -283,6 +283,38 @@ def history(r, rec, trace, steps, hid):
                 if shown not in text and norm(shown) not in norm(text):
                     rec.violation(f"display-name-missing:{nm_}", f"{nm_} output {text[:160]!r} lacks the display name {shown!r}", {"history": hid, "printer": nm_})
                     break
+    # ... also when an object reaches a printer on its own, inside a container, as an indexed element or as its base
+    idx = sympy.Idx("i_p")
+    singles = []
+    for kk in ("Symbol", "IndexedSymbol", "Function"):
+        for _, o, rr in [c for c in created if c[0] == kk][:2]:
+            singles.append((kk + ":bare", o))
+            if kk == "IndexedSymbol":
+                try:
+                    el = o[idx]
+                    singles.append((kk + ":element", el))
+                    singles.append((kk + ":element.base", el.base))
+                    singles.append((kk + ":factor", 2 * el + o[idx] ** 2))
+                except Exception:  # pylint: disable=broad-except
+                    pass
+            if kk == "Function" and printable:
+                singles.append((kk + ":applied", o(printable[0])))
+    if len(singles) >= 2:
+        singles.append(("list", [o for _, o in singles[:3]]))
+        singles.append(("tuple", tuple(o for _, o in singles[:2])))
+    for label, o in singles:
+        for nm_, fn in (("print_expression", print_expression), ("code_str", code_str), ("latex_str", latex_str)):
+            if label == "Function:bare" and nm_ == "print_expression":
+                continue  # an unapplied function is not an expression: print_expression documents applied functions only
+            try:
+                text = fn(o)
+            except Exception:  # pylint: disable=broad-except
+                rec.add("single_object_print_raised")
+                continue
+            rec.hit("printed_single")
+            m = INTERNAL.search(str(text))
+            if m and not any(m.group(0) in (rr.get("display") or "") for _, _, rr in created):
+                rec.violation(f"internal-name-printed:{nm_}:{m.group(1)}:{label}", f"{nm_}({label}) shows the internal name {m.group(0)}: {str(text)[:200]}", {"history": hid, "printer": nm_, "what": label})
     if len(rec.samples) < 2:
         rec.sample({"history": hid, "steps": steps, "pool": pool, "objects": len(created), "collisions": {k: v for k, v in names_seen.items() if v > 1}})
 
